@@ -8,6 +8,9 @@ Ok(op) == [op |-> op, when |-> "afterSuccess"]
 Blocked == { [op |-> "read", when |-> "whileBlocked"], [op |-> "read", when |-> "midMessage"],
              [op |-> "write", when |-> "whileBlocked"], [op |-> "writer", when |-> "whileBlocked"],
              [op |-> "write", when |-> "lockWait"], [op |-> "ping", when |-> "pongWait"],
+             \* the read is blocked in the middle of a frame HEADER of which k bytes (of a header with a 64-bit length) arrived
+             \* in the same transport read as the previous message and are already buffered
+             [op |-> "read", when |-> "partialHeader2"], [op |-> "read", when |-> "partialHeader9"], [op |-> "read", when |-> "partialHeader13"],
              \* one context shared by a read and a write that are in flight together: the other call completes first,
              \* then the context is cancelled while this one is still blocked
              [op |-> "read", when |-> "sharedCtxWriteDone"], [op |-> "write", when |-> "sharedCtxReadDone"],
